@@ -16,6 +16,8 @@ def AND(*args):
 
 @dispatcher.register_for('IF')
 def IF(test, then, otherwise):
+    if isinstance(test, error.XLError):
+        return test  # an error condition is the result, not a truthy value
     return then if test else otherwise
 
 
@@ -64,6 +66,8 @@ def SWITCH(target_value, *args):
 @dispatcher.register_for('IFS')
 def IFS(*args):
     for pair in zip(args[::2], args[1::2]):
+        if isinstance(pair[0], error.XLError):
+            return pair[0]  # an error condition is the result, not a truthy value
         if pair[0]:
             return pair[1]
     return error.NOT_AVAILABLE
